@@ -2981,6 +2981,7 @@ static int32_t parseGeneralNames(psPool_t *pool, const unsigned char **buf,
             Memset(activeName, 0x0, sizeof(x509GeneralName_t));
             activeName->pool = pool;
         }
+        terminating_nils = 1;
         activeName->id = (x509GeneralNameType_t) (*p & 0xF);
         p++; len--;
         switch (activeName->id)
